@@ -1,5 +1,5 @@
 (* Proofs/TravCompile.v — what compile (the Parse* functions) returns is a closed declared selector. *)
-Require Import IP.Base.Bytes IP.DM.Value IP.Base.GoSem IP.Trav.Selector IP.Proofs.TravSel IP.Proofs.TravDenote.
+Require Import IP.Base.Bytes IP.DM.Value IP.Base.GoSem IP.Trav.Selector IP.Proofs.TravSel IP.Proofs.TravSlice IP.Proofs.TravDenote.
 From Coq Require Import Lia.
 Open Scope Z_scope.
 
@@ -10,6 +10,13 @@ Proof. destruct r; cbn; try discriminate. eauto. Qed.
 Ltac inv_cbind H :=
   repeat (let a := fresh "a" in let E := fresh "E" in
           apply cbind_ok in H; destruct H as (a & E & H)).
+
+Lemma as_int_in64 v z : as_int v = Some z -> in64 z.
+Proof.
+  destruct v; try discriminate. cbn. unfold int64_lim, in64, two63.
+  destruct (Z.leb_spec (-9223372036854775808) z0); destruct (Z.ltb_spec z0 9223372036854775808); cbn;
+    intros E; inversion E; subst; lia.
+Qed.
 
 Lemma fields_wf b (rec : dm -> cr (sel * bool)) :
   (forall x se, rec x = COk se -> srcw b (fst se)) ->
@@ -57,11 +64,14 @@ Proof.
   destruct (bytes_eqb k k_matcher); [|discriminate].
   inv_cbind H. inversion H; subst. cbn.
   unfold parse_matcher in *. destruct body; try discriminate.
-  repeat match goal with
-         | E : match ?x with _ => _ end = COk _ |- _ => destruct x; try discriminate
-         | E : (if ?x then _ else _) = COk _ |- _ => destruct x; try discriminate
-         end;
-    match goal with E : COk _ = COk _ |- _ => inversion E; subst; constructor end.
+  destruct (assoc k_subset m) as [sv|]; [|inversion E; subst; constructor; exact I].
+  destruct sv; try discriminate.
+  destruct (assoc k_from m0) as [fv|]; [|discriminate].
+  destruct (as_int fv) as [fromN|] eqn:Ef; [|discriminate].
+  destruct (assoc k_to m0) as [tv|]; [|discriminate].
+  destruct (as_int tv) as [toN|] eqn:Et; [|discriminate].
+  destruct ((0 <=? toN) && (toN <? fromN))%bool; [discriminate|].
+  inversion E; subst. constructor. split; eapply as_int_in64; eassumption.
 Qed.
 
 Theorem compile_wf v s : compile v = COk s -> srcw false s.
